@@ -1,43 +1,6 @@
-"""C05 - Re-mastering is a fixpoint (DESIGN.md section 4, C05)."""
-from mc import master, ops
+"""C05 - re-mastering is a fixpoint (DESIGN.md section 4): MASTER-ENUM histories + growth chains with the master.oracle_fixpoint oracle."""
+from mc import master, ops, oracles
+from mc.props import _std
 
-PROP = 'C05'
-LEVEL = 'model_checking'
-ORACLES = [master.oracle_fixpoint]
-ASSUMPTIONS = [
-    'virtual clock advanced by 1d 1h 7m 3s between generations so that every time-derived byte would change',
-    'only the 17-byte volume modification date of each primary/supplementary descriptor is masked',
-]
-
-BOUNDS = {
-    'quick': [('quick', ops.CFG12, 2, 1), ('macro', ops.CFG12[3:4] + ops.CFG12[9:11], 1, 1)],
-    'thorough': [('quick', ops.CFG12, 3, 2), ('macro', ops.CFG12, 2, 1), ('quick', ops.CFG256, 2, 1)],
-}
-
-
-def tasks(tier):
-    out = []
-    for profile, cfgs, depth, k in BOUNDS[tier]:
-        out += master.make_tasks(cfgs, profile, depth, k)
-    return out
-
-
-def run_task(task):
-    return master.run_task(task, ORACLES)
-
-
-def check_case(case):
-    status, viols, info = master.evaluate(case, ORACLES)
-    return viols
-
-
-def coverage(tier, r):
-    return {
-        'states': len(r.sets.get('states', ())),
-        'transitions': r.n.get('transitions', 0),
-        'traces_validated_against_impl': r.n.get('executions', 0),
-        'bound': [{'profile': p, 'configs': len(c), 'depth': d} for p, c, d, k in BOUNDS[tier]],
-        'exhaustive': True,
-        'explanation': 'every history over sigma1 up to the depth bound is mastered, reopened and re-mastered twice '
-                       '(3 generations); generations must be byte-identical outside the volume modification dates',
-    }
+_std.install(globals(), 'C05', 'model_checking', [master.oracle_fixpoint], _std.default_bounds(),
+             ['virtual clock advanced between generations; only the volume modification dates are masked'] + ['alphabet sigma1 of mc/ops.py and the depth bounds listed in the evidence'])
